@@ -79,10 +79,38 @@ def max_value(n):
     b = int_bits(t.get("desugaredQualType") or t.get("qualType"))
     return (1 << b) - 1 if b and b < 64 else None
 
+def mem_lvalue(lhs, locals_):
+    """does a store to this lvalue write memory other than an automatic variable / parameter of the function?
+       (`x = ..`, `x.f = ..`, `a[i] = ..` for a local array `a` do not; `*p = ..`, `p->f = ..`, `p[i] = ..`, `global = ..` do)"""
+    n = lhs
+    while True:
+        n = cast.strip(n)
+        k = n.get("kind")
+        if k == "DeclRefExpr":
+            d = n.get("referencedDecl", {})
+            return not (d.get("kind") in ("VarDecl", "ParmVarDecl") and d.get("id") in locals_)
+        if k == "MemberExpr" and not n.get("isArrow") and n.get("inner"):
+            n = n["inner"][0]
+            continue
+        if k == "ArraySubscriptExpr" and n.get("inner"):
+            base = n["inner"][0]
+            # a local ARRAY decays to a pointer through an ImplicitCastExpr(ArrayToPointerDecay) directly above its DeclRefExpr
+            b = base
+            while b.get("kind") in ("ParenExpr",) and b.get("inner"):
+                b = b["inner"][-1]
+            if b.get("kind") == "ImplicitCastExpr" and b.get("castKind") == "ArrayToPointerDecay" and b.get("inner"):
+                n = b["inner"][0]
+                continue
+            return True
+        return True
+
 def scan(cfg):
     globals_, assigns, allocsites, libc, notes = {}, set(), {}, set(), []
     fields, narrowing = {}, {}
     arms = set()
+    funcs, locals_ = {}, set()     # call graph / stores through memory, per function defined (with a body) under src/
+    ginit, gconst, gfp = {}, {}, {}   # variables with static storage: functions named by the initialiser, const?, may hold a function pointer?
+    safe_nodes, escapes = set(), set()  # address-of / decay nodes that only yield a pointer-to-const or an element read; (name) whose address escapes
     src_prefix = os.path.join(cast.REPO, "src") + "/"
     for src in cfg["srcs"]:
         rel = os.path.relpath(src, os.path.join(cast.REPO, "src"))
@@ -99,6 +127,99 @@ def scan(cfg):
             if f:
                 cur_file[0] = f
             k = n.get("kind")
+            # ---- address-of / array decay of variables with static storage: does a pointer through which the variable could be
+            # written leave the expression?  `&v` / decayed `v` directly under a conversion to pointer-to-const, or as the base of a
+            # subscript, does not count
+            if k in ("ImplicitCastExpr", "CStyleCastExpr") and n.get("inner"):
+                qt = (n.get("type", {}).get("qualType") or "")
+                if re.match(r"^const\b[^*]*\*\s*(const)?$", qt) or re.search(r"\bconst\s*\*\s*(const)?$", qt):
+                    m_ = n
+                    while m_.get("kind") in ("ImplicitCastExpr", "CStyleCastExpr", "ParenExpr") and m_.get("inner") and \
+                            not (m_.get("kind") == "ImplicitCastExpr" and m_.get("castKind") == "ArrayToPointerDecay"):
+                        m_ = m_["inner"][-1]
+                    safe_nodes.add(id(m_))
+            if k == "ArraySubscriptExpr" and n.get("inner"):
+                b_ = n["inner"][0]
+                while b_.get("kind") == "ParenExpr" and b_.get("inner"):
+                    b_ = b_["inner"][-1]
+                safe_nodes.add(id(b_))
+            if (k == "UnaryOperator" and n.get("opcode") == "&") or (k == "ImplicitCastExpr" and n.get("castKind") == "ArrayToPointerDecay"):
+                if id(n) not in safe_nodes and n.get("inner"):
+                    r_ = n["inner"][0]
+                    while True:
+                        r_ = cast.strip(r_)
+                        if r_.get("kind") in ("MemberExpr", "ArraySubscriptExpr") and not r_.get("isArrow") and r_.get("inner"):
+                            r_ = r_["inner"][0]
+                        else:
+                            break
+                    if r_.get("kind") == "DeclRefExpr" and r_.get("referencedDecl", {}).get("kind") == "VarDecl" \
+                            and r_["referencedDecl"].get("id") not in locals_:
+                        escapes.add(r_["referencedDecl"].get("name"))
+            if k == "VarDecl" and ((ctx is None and n.get("storageClass") != "extern") or (ctx is not None and n.get("storageClass") == "static")):
+                fr = set()
+                def _fr(x):
+                    if isinstance(x, dict):
+                        if x.get("kind") == "DeclRefExpr" and x.get("referencedDecl", {}).get("kind") == "FunctionDecl":
+                            fr.add(x["referencedDecl"].get("name"))
+                        for c_ in x.get("inner", []):
+                            _fr(c_)
+                for c_ in n.get("inner", []):
+                    _fr(c_)
+                has_init = any(c_.get("kind") not in ("FullComment",) for c_ in n.get("inner", []))
+                if has_init:
+                    ginit.setdefault(n["name"], set()).update(fr)
+                qt_ = n.get("type", {}).get("qualType", "")
+                dq_ = n.get("type", {}).get("desugaredQualType") or qt_
+                gconst[n["name"]] = gconst.get(n["name"], True) and (qt_.startswith("const ") or "*const" in qt_.replace(" ", "") and qt_.rstrip().endswith("const"))
+                gfp[n["name"]] = gfp.get(n["name"], False) or ("(*" in dq_ or "struct " in dq_ or "union " in dq_)
+            if k == "VarDecl" and n.get("storageClass") == "extern":
+                dq_ = n.get("type", {}).get("desugaredQualType") or n.get("type", {}).get("qualType", "")
+                gfp[n["name"]] = gfp.get(n["name"], False) or ("(*" in dq_ or "struct " in dq_ or "union " in dq_)
+            # ---- call graph and memory stores (C18: read-only getters; C13 / C08: functions that must not reach the allocator)
+            if k in ("VarDecl", "ParmVarDecl") and ctx is not None and n.get("storageClass") not in ("static", "extern"):
+                locals_.add(n.get("id"))
+            if k == "FunctionDecl" and any(x.get("kind") == "CompoundStmt" for x in n.get("inner", [])):
+                infile = cur_file[0] or ""
+                if infile.startswith(src_prefix):
+                    funcs.setdefault(n.get("name"), {"file": os.path.relpath(infile, os.path.join(cast.REPO, "src")), "callees": set(), "stores": 0, "grefs": set()})
+            if ctx in funcs:
+                if k == "DeclRefExpr" and n.get("referencedDecl", {}).get("kind") == "FunctionDecl":
+                    funcs[ctx]["callees"].add(n["referencedDecl"].get("name"))
+                if k == "CallExpr" and n.get("inner"):
+                    f0 = n["inner"][0]
+                    # the root of the callee expression: `f`, `(*p)`, `table[i]`, `s.member`, `q->member`
+                    while True:
+                        f0 = cast.strip(f0)
+                        fk = f0.get("kind")
+                        if fk == "UnaryOperator" and f0.get("opcode") == "*" and f0.get("inner"):
+                            f0 = f0["inner"][0]
+                        elif fk == "ArraySubscriptExpr" and f0.get("inner"):
+                            f0 = f0["inner"][0]
+                        elif fk == "MemberExpr" and not f0.get("isArrow") and f0.get("inner"):
+                            f0 = f0["inner"][0]
+                        else:
+                            break
+                    if f0.get("kind") == "MemberExpr":
+                        funcs[ctx]["callees"].add("*" + (f0.get("name") or "?"))     # `callbacks->uint8(..)`: the member of a pointed-to object
+                    elif f0.get("kind") == "DeclRefExpr":
+                        d = f0.get("referencedDecl", {})
+                        if d.get("kind") == "FunctionDecl":
+                            pass                                                       # direct call: recorded by the DeclRefExpr rule
+                        elif d.get("id") in locals_:
+                            funcs[ctx]["callees"].add("*(local)")                      # through a parameter / automatic variable of the function
+                        else:
+                            funcs[ctx]["grefs"].add(d.get("name"))                     # through a variable with static storage: resolved below
+                    else:
+                        funcs[ctx]["callees"].add("*?")
+                if k == "DeclRefExpr" and n.get("referencedDecl", {}).get("kind") == "VarDecl" and n["referencedDecl"].get("id") not in locals_:
+                    funcs[ctx]["grefs"].add(n["referencedDecl"].get("name"))
+                lhs = None
+                if k in ("BinaryOperator", "CompoundAssignOperator") and n.get("opcode", "").endswith("=") and n.get("opcode") not in ("==", "!=", "<=", ">="):
+                    lhs = n["inner"][0]
+                if k == "UnaryOperator" and n.get("opcode") in ("++", "--"):
+                    lhs = n["inner"][0]
+                if lhs is not None and mem_lvalue(lhs, locals_):
+                    funcs[ctx]["stores"] += 1
             if k == "VarDecl":
                 infile = cur_file[0] or ""
                 sc = n.get("storageClass")
@@ -207,18 +328,26 @@ def scan(cfg):
                 if m_.group(1) == "ifndef" and len(ids) == 1 and re.match(r"\s*#\s*define\s+%s\b" % re.escape(ids[0]), nxt):
                     continue        # include guard
                 ppmacros.update(ids)
+    # calls through / references to variables with static storage: the functions its initialiser names (a const table of
+    # function pointers), and - unless it is const with a visible initialiser - the token `*name` (it may hold anything)
+    for fn, d in funcs.items():
+        for g in d["grefs"]:
+            d["callees"] |= ginit.get(g, set())
+            if gfp.get(g, True) and not (gconst.get(g, False) and g in ginit):
+                d["callees"].add("*" + g)
     # which globals are assigned, and where
     gl = []
     ids = {}
     for (name, where, fn), is_const in sorted(globals_.items()):
         writers = sorted({a[1] for a in assigns if a[0] == name and (fn == "" or a[1] == fn)})
-        gl.append((name, where, fn, bool(is_const), writers))
+        gl.append((name, where, fn, bool(is_const), writers, name in escapes))
     return {"globals": gl,
             "allocsites": sorted((f, fn, p, c) for (f, fn, p), c in allocsites.items()),
             "libc": sorted(libc),
             "fields": sorted((st, f, b) for (st, f), b in fields.items()),
             "narrowing": sorted((f, fn, a, b, c) for (f, fn, a, b), c in narrowing.items()),
-            "arms": sorted(arms), "ppmacros": sorted(ppmacros)}, notes
+            "arms": sorted(arms), "ppmacros": sorted(ppmacros),
+            "callgraph": sorted((fn, d["file"], d["stores"], sorted(d["callees"] - {fn})) for fn, d in funcs.items())}, notes
 
 def q(s):
     return '"%s"' % s
@@ -226,10 +355,11 @@ def q(s):
 def emit(inv):
     lines = ["(* GENERATED by translator/inventory.py from the clang AST of every library source — do not edit *)",
              "From Coq Require Import List String NArith.", "Import ListNotations.", "Local Open Scope string_scope.",
-             "(* variables with static storage duration defined in src/: (name, file, enclosing function, const?, functions that assign it) *)",
-             "Definition gen_globals : list (string * string * string * bool * list string) := ["]
-    lines.append(";\n".join("  (%s, %s, %s, %s, [%s])" % (q(n), q(w), q(f), "true" if c else "false", "; ".join(q(x) for x in ws))
-                            for (n, w, f, c, ws) in inv["globals"]))
+             "(* variables with static storage duration defined in src/: (name, file, enclosing function, const?, functions that assign it, escapes?);",
+             "   the last component: does a pointer to it that is not pointer-to-const leave an expression (`&v`, array decay other than for indexing)? *)",
+             "Definition gen_globals : list (string * string * string * bool * list string * bool) := ["]
+    lines.append(";\n".join("  (%s, %s, %s, %s, [%s], %s)" % (q(n), q(w), q(f), "true" if c else "false", "; ".join(q(x) for x in ws), "true" if e else "false")
+                            for (n, w, f, c, ws, e) in inv["globals"]))
     lines.append("].")
     lines.append("(* calls through the allocator pointers: (file, function, pointer, count) *)")
     lines.append("Definition gen_allocsites : list (string * string * string * N) := [")
@@ -252,5 +382,11 @@ def emit(inv):
     lines.append("(* AUDIT2: arms of union cbor_item_metadata accessed in the .c files: (file, function, arm) *)")
     lines.append("Definition gen_union_arms : list (string * string * string) := [")
     lines.append(";\n".join("  (%s, %s, %s)" % (q(f), q(fn), q(a)) for (f, fn, a) in inv.get("arms", [])))
+    lines.append("].")
+    lines.append("(* call graph of the functions defined (with a body) under src/: (function, file, number of stores through memory - "
+                 "`*p = ..`, `p->f = ..`, `p[i] = ..`, a global, incl. `op=` / `++` / `--`; stores to automatic variables and parameters "
+                 "are not counted -, functions it names or calls; `*x` = a call through the pointer x) *)")
+    lines.append("Definition gen_callgraph : list (string * string * N * list string) := [")
+    lines.append(";\n".join("  (%s, %s, %d%%N, [%s])" % (q(fn), q(f), st, "; ".join(q(c) for c in cs)) for (fn, f, st, cs) in inv.get("callgraph", [])))
     lines.append("].")
     return "\n".join(lines) + "\n"
